@@ -12,6 +12,7 @@ type keyMeta struct {
 	Arity int    // number of Int indices for ghost facts
 	Ghost bool
 	Local bool // thread-local ghost variable: changed only by contracts that name it
+	Scratch bool // observation variable private to one function invocation: no call can change it
 }
 
 type stEdge struct {
@@ -186,6 +187,9 @@ func keepMatches(key, pat string) bool {
 
 // havocs reports whether this derived state forgets (or weakens) component key relative to prev.
 func (s *state) havocs(key string, meta keyMeta) bool {
+	if meta.Scratch {
+		return s.havocKeys[key] // only an explicit assignment (e.g. inside a loop being cut) changes it
+	}
 	hav := s.havocKeys[key] || (s.havocHeap && isHeapKey(key)) || (s.havocGhst && meta.Ghost && (!meta.Local || s.havocLocal) && key != "G:$alloc")
 	if hav && s.havocHeap && isHeapKey(key) && !s.havocKeys[key] {
 		for _, p := range s.keepPats {
